@@ -114,6 +114,9 @@ pub enum Reaction {
     LeaderSignedOtherFlag,
     /// ... other payload
     LeaderSignedOtherData,
+    /// a last-slice-root request is answered with an *earlier* slice, its genuine root and its
+    /// genuine membership proof (everything true except that the slice is not the last one)
+    EarlierSliceAsLast,
 }
 
 #[derive(Clone, Debug, Serialize, Deserialize)]
@@ -189,6 +192,7 @@ impl Property for C14 {
             1 => Just(Reaction::Unsolicited),
             2 => Just(Reaction::LeaderSignedOtherFlag),
             2 => Just(Reaction::LeaderSignedOtherData),
+            2 => Just(Reaction::EarlierSliceAsLast),
         ];
         (block, prop::collection::vec(reaction, 1..40), 0u8..=3, prop::collection::vec((0u8..3, prop_oneof![4 => 0u16..4, 1 => 0u16..1024], 0u8..64, prop::bool::weighted(0.8), prop::bool::weighted(0.85)), 0..8), prop_oneof![3 => Just(0u8), 2 => Just(1u8), 1 => Just(2u8), 1 => Just(3u8)], prop_oneof![3 => Just(0u8), 1 => 1u8..=31])
             .prop_map(|(block, script, max_hostile, probes, responder_history, requester_conflicting_shreds)| Case { block, script, max_hostile, probes, responder_history, requester_conflicting_shreds })
@@ -526,6 +530,22 @@ async fn run(case: &Case) -> Outcome {
                     (_, c) => c,
                 };
                 deliver(bad);
+            }
+            Reaction::EarlierSliceAsLast => {
+                let mut sent = false;
+                if let RepairRequestType::LastSliceRoot(_) = &rtype
+                    && k >= 2
+                {
+                    let j = script_i % (k - 1);
+                    let q = RepairRequestType::SliceRoot(id.clone(), slice_index(j));
+                    if let Some(RepairResponse::SliceRoot(_, root, proof)) = ask(&resp_in, &mut resp_out, make_request(sender, &q)).await {
+                        deliver(RepairResponse::LastSliceRoot(rtype.clone(), slice_index(j), root, proof));
+                        sent = true;
+                    }
+                }
+                if !sent {
+                    deliver(RepairResponse::Nack(rtype.clone()));
+                }
             }
             Reaction::LeaderSignedOtherFlag | Reaction::LeaderSignedOtherData => {
                 if let RepairRequestType::Shred(_, s, i) = &rtype {
